@@ -269,3 +269,198 @@ func TestChanLin(t *testing.T) {
 		st.Case(trace, overlap && len(ops) >= 6, cls...)
 	})
 }
+
+// ---------------------------------------------------------------------------------------------
+// A Buffer consumer shared by several goroutines (C02): linearizability of Get/Commit/Rollback/Diff
+// against the sequential (put, committed, uncommitted) model, with concurrent Puts as operations.
+
+type slState struct{ n, committed, delta int }
+
+type slIn struct {
+	op string // "put" | "get" | "commit" | "rollback" | "diff"
+	k  int
+}
+
+type slOut struct {
+	val int
+	err bool
+}
+
+var slModel = porcupine.Model{
+	Init: func() interface{} { return slState{} },
+	Step: func(st, in, out interface{}) (bool, interface{}) {
+		s, i, o := st.(slState), in.(slIn), out.(slOut)
+		switch i.op {
+		case "put":
+			s.n += i.k
+			return !o.err, s
+		case "get":
+			if o.err || s.committed+s.delta >= s.n {
+				return false, s
+			}
+			ok := o.val == s.committed+s.delta+1
+			s.delta++
+			return ok, s
+		case "commit":
+			if s.delta == 0 {
+				return o.err, s
+			}
+			s.committed += s.delta
+			s.delta = 0
+			return !o.err, s
+		case "rollback":
+			if s.delta == 0 {
+				return o.err, s
+			}
+			s.delta = 0
+			return !o.err, s
+		case "diff":
+			return !o.err && o.val == s.n-(s.committed+s.delta), s
+		}
+		return false, s
+	},
+	Equal: func(a, b interface{}) bool { return a.(slState) == b.(slState) },
+	DescribeOperation: func(in, out interface{}) string {
+		i, o := in.(slIn), out.(slOut)
+		return fmt.Sprintf("%s(%d)->{val=%d err=%v}", i.op, i.k, o.val, o.err)
+	},
+}
+
+func TestConsLin(t *testing.T) {
+	st := vkit.For("conslin")
+	rapid.Check(t, func(t *rapid.T) {
+		nG := rapid.IntRange(2, 3).Draw(t, "goroutines")
+		scripts := make([][]string, nG)
+		gets := 0
+		for g := range scripts {
+			n := rapid.IntRange(1, 8).Draw(t, "len")
+			for j := 0; j < n; j++ {
+				op := rapid.SampledFrom([]string{"get", "get", "get", "commit", "rollback", "rollback", "diff", "yield"}).Draw(t, "op")
+				if op == "get" {
+					gets++
+				}
+				scripts[g] = append(scripts[g], op)
+			}
+		}
+		// the producer puts at least as many values as there are Gets, so no Get can block forever
+		// (a blocked Get holds the consumer's lock; everybody else on that consumer waits behind it)
+		var batches []int
+		for left := gets; left > 0 || len(batches) == 0; {
+			k := rapid.IntRange(1, 3).Draw(t, "batch")
+			batches = append(batches, k)
+			left -= k
+		}
+		cooldown := rapid.SampledFrom([]time.Duration{0, 50 * time.Microsecond}).Draw(t, "cooldown")
+		prodYield := rapid.IntRange(0, 3).Draw(t, "prodYield")
+		trace := []string{fmt.Sprintf("scripts=%v batches=%v cooldown=%v prodYield=%d", scripts, batches, cooldown, prodYield)}
+		vkit.CaseStart(func() string { return strings.Join(trace, " ; ") })
+		var (
+			clock  atomic.Int64
+			mu     sync.Mutex
+			ops    []porcupine.Operation
+			panics []string
+		)
+		record := func(client int, in slIn, call int64, out slOut) {
+			ret := clock.Add(1)
+			mu.Lock()
+			ops = append(ops, porcupine.Operation{ClientId: client, Input: in, Call: call, Output: out, Return: ret})
+			mu.Unlock()
+		}
+		rapid.SyncTest(t, func(t *rapid.T) {
+			b := new(bigbuff.Buffer)
+			_ = b.SetCleanerConfig(bigbuff.CleanerConfig{Cleaner: bigbuff.DefaultCleaner, Cooldown: cooldown})
+			c, err := b.NewConsumer()
+			if err != nil {
+				t.Fatalf("harness: %v", err)
+			}
+			var wg sync.WaitGroup
+			guard := func() {
+				if r := recover(); r != nil {
+					mu.Lock()
+					panics = append(panics, fmt.Sprint(r))
+					mu.Unlock()
+				}
+			}
+			wg.Add(1)
+			go func() {
+				defer wg.Done()
+				defer guard()
+				next := 0
+				for _, k := range batches {
+					for i := 0; i < prodYield; i++ {
+						runtime.Gosched()
+					}
+					vals := make([]any, k)
+					for i := range vals {
+						next++
+						vals[i] = next
+					}
+					call := clock.Add(1)
+					err := b.Put(context.Background(), vals...)
+					record(100, slIn{op: "put", k: k}, call, slOut{err: err != nil})
+				}
+			}()
+			for g := range scripts {
+				wg.Add(1)
+				go func(g int) {
+					defer wg.Done()
+					defer guard()
+					for _, op := range scripts[g] {
+						call := clock.Add(1)
+						switch op {
+						case "yield":
+							runtime.Gosched()
+						case "get":
+							v, err := c.Get(context.Background())
+							iv, _ := v.(int)
+							record(g, slIn{op: "get"}, call, slOut{val: iv, err: err != nil})
+						case "commit":
+							err := c.Commit()
+							record(g, slIn{op: "commit"}, call, slOut{err: err != nil})
+						case "rollback":
+							err := c.Rollback()
+							record(g, slIn{op: "rollback"}, call, slOut{err: err != nil})
+						case "diff":
+							d, ok := b.Diff(c)
+							record(g, slIn{op: "diff"}, call, slOut{val: d, err: !ok})
+						}
+					}
+				}(g)
+			}
+			wg.Wait()
+			_ = c.Rollback()
+			_ = c.Close()
+			_ = b.Close()
+			time.Sleep(time.Hour)
+		})
+		if len(panics) > 0 {
+			vkit.Fail(t, "C02/panic", "panic while several goroutines share one consumer: %v\ncase: %v", panics, trace)
+		}
+		res := porcupine.CheckOperationsTimeout(slModel, ops, 20*time.Second)
+		if res == porcupine.Unknown {
+			st.Exclude("porcupine-timeout")
+			st.Case(trace, false, "checker-timeout")
+			return
+		}
+		if res != porcupine.Ok {
+			var hist []string
+			for _, o := range ops {
+				hist = append(hist, fmt.Sprintf("[%d..%d c%d %s]", o.Call, o.Return, o.ClientId, slModel.DescribeOperation(o.Input, o.Output)))
+			}
+			vkit.Fail(t, "C02/shared-consumer-not-linearizable", "the history of Get/Commit/Rollback/Diff calls by several goroutines on one consumer (plus concurrent Puts) has no sequential explanation consistent with real time\ncase: %v\nhistory: %s", trace, strings.Join(hist, " "))
+		}
+		overlap := false
+		for i, a := range ops {
+			for _, b := range ops[i+1:] {
+				if a.ClientId != b.ClientId && a.ClientId != 100 && b.ClientId != 100 && a.Call < b.Return && b.Call < a.Return {
+					overlap = true
+				}
+			}
+		}
+		cls := []string{fmt.Sprintf("goroutines:%d", nG)}
+		if overlap {
+			cls = append(cls, "ops-overlapped")
+		}
+		st.Case(trace, overlap, cls...)
+	})
+}
